@@ -197,6 +197,33 @@ Theorem C26_doc_merge1_scope :
 Proof. exact merge1_scope. Qed.
 Print Assumptions C26_doc_merge1_scope.
 
+(** Merge(bs, cs) of any number of blocks, any mode: the constraints of each merged block [inner] apply
+    within the repetitions of that block (repetition j starts at [merge_off + j*(b_T inner - b_P inner)],
+    [merge_off] = 0 except under POST_PREAMBLE, where the blocks' post-preamble parts are aligned);
+    the constraints [cs] of the Merge apply to the whole sequence *)
+Theorem C26_doc_merge_scope :
+  forall p bs cs mode al ds,
+    doc_sem_block p (PMerge bs cs mode al) = Ok ds ->
+    exists inners ksss kss_c,
+      Forall2 (fun b bd => doc_block p b = Ok bd) bs inners /\
+      s_constraints (ds_sem ds) = List.concat (List.concat ksss) ++ List.concat kss_c ++ marker ds /\
+      Forall2 (fun inner kss =>
+                 Forall2 (fun csc ks => forall k : dconstraint, In k ks ->
+                            b_P inner < b_T inner /\
+                            scoped (ds_block ds) (b_T inner)
+                                   (fun base => rep_closed base (b_T inner - b_P inner) (ds_T ds) (b_P inner)
+                                                           (match b_alignment (ds_block ds) with
+                                                            | PostPreamble => maxp_of (ds_block ds) - b_P inner
+                                                            | _ => 0
+                                                            end))
+                                   (fun s => s) csc k)
+                         (b_constraints inner) kss)
+              inners ksss /\
+      Forall2 (fun c ks => forall k : dconstraint, In k ks -> global_scope (ds_block ds) (ds_T ds) c k)
+              (filter (fun c => negb (is_min_trials c)) cs) kss_c.
+Proof. exact merge_scope. Qed.
+Print Assumptions C26_doc_merge_scope.
+
 (** [b] a CrossBlock / MultiCrossBlock: every constraint of [b] has exactly the repetition windows
     [(j*step, min(j*step + Tb, T))], step = Tb - Pb, j*step < T - Pb *)
 Theorem C26_doc_repeat_cross_scope :
@@ -373,6 +400,14 @@ Example C26_doc_example_merge :
   sizes_of exd_merge exd_cross = Some (2, 0, 5) /\
   sem_constraints_of exd_merge = [(KAtMost 1, 0, [(0, 2); (2, 4); (4, 5)]); (KAtMost 2, 1, [(0, 5)])].
 Proof. vm_compute. split; reflexivity. Qed.
+
+(** two merged blocks of 2 and 3 trials in a 6-trial sequence: each block's constraint applies within
+    that block's own repetitions *)
+Example C26_doc_example_merge2 :
+  sizes_of exd_merge2 exd_cross = Some (2, 0, 6) /\ sizes_of exd_merge2 exd_inner = Some (3, 0, 6) /\
+  sem_constraints_of exd_merge2
+  = [(KAtMost 1, 0, [(0, 2); (2, 4); (4, 6)]); (KAtMost 1, 0, [(0, 3); (3, 6)])].
+Proof. vm_compute. repeat split; reflexivity. Qed.
 
 (** a block with one preamble trial (3 trials; t = Transition on f crossed): repetitions of 2 trials,
     each window includes the preamble trial before it - the windows of [C26_example_preamble] *)
